@@ -38,6 +38,17 @@ struct Table {
 
 static TABLE: Mutex<Option<Table>> = Mutex::new(None);
 
+/// While set, EVERY freed block is quarantined (not only watched ones), so a
+/// pointer into memory that was freed at any time during the case — also
+/// before anybody could register it with `watch` — is recognisable
+/// (`freed_block_of`) and the memory is never handed out again until
+/// `release_quarantine`. Only watched blocks are reported by `drain_frees`.
+static QUARANTINE_ALL: std::sync::atomic::AtomicBool = std::sync::atomic::AtomicBool::new(false);
+
+pub fn quarantine_all(on: bool) {
+    QUARANTINE_ALL.store(on, std::sync::atomic::Ordering::SeqCst);
+}
+
 thread_local! {
     /// Set while inside the tracker (its own allocations are not tracked).
     static INSIDE: Cell<bool> = const { Cell::new(false) };
@@ -150,6 +161,8 @@ fn note_free(base: usize) -> Freed {
             t.frees += 1;
             if b.watched {
                 t.freed_watched.push(b);
+            }
+            if b.watched || QUARANTINE_ALL.load(std::sync::atomic::Ordering::Relaxed) {
                 t.quarantine.insert(base, b);
                 Freed::Quarantined
             } else {
@@ -254,6 +267,11 @@ pub fn live_ids() -> Vec<u64> {
 pub fn live_since(after: u64) -> Vec<Block> {
     with_table(|t| t.live.values().filter(|b| b.id > after).copied().collect())
         .unwrap_or_default()
+}
+
+/// Is the block with this id still allocated?
+pub fn is_live(id: u64) -> bool {
+    with_table(|t| t.live.values().any(|b| b.id == id)).unwrap_or(false)
 }
 
 /// The id the next allocation will get.
